@@ -12,13 +12,24 @@ from vf.ref import rulelang as R
 
 
 class ORule:
-    __slots__ = ("pat", "glob", "order_reverse", "children")
+    __slots__ = ("pat", "glob", "order_reverse", "children", "scope")
 
-    def __init__(self, pat, children=(), glob=False, order_reverse=False):
-        self.pat, self.glob, self.order_reverse, self.children = pat, glob, order_reverse, list(children)
+    def __init__(self, pat, children=(), glob=False, order_reverse=False, scope=None):
+        self.pat, self.glob, self.order_reverse, self.children, self.scope = pat, glob, order_reverse, list(children), scope
 
     def raw(self):
-        return self.pat + (" %global" if self.glob else "") + (" %order_reverse" if self.order_reverse else "")
+        return self.pat + (" %global" if self.glob else "") + (" %order_reverse" if self.order_reverse else "") + (" %%scope=%s" % self.scope if self.scope else "")
+
+
+def for_scope(level, scope):
+    """the rules in force for a caller: a rule restricted with %scope=X exists only for callers of scope X (patches: "patch",
+    ordering a whole configuration: none)"""
+    out = []
+    for r in level:
+        if r.scope is not None and r.scope != scope:
+            continue
+        out.append(ORule(r.pat, for_scope(r.children, scope), r.glob, r.order_reverse, r.scope))
+    return out
 
 
 def render(level, indent=0):
